@@ -5,6 +5,7 @@ between two splitters, the LCP walk never fails.
 import TlxVerif.Proofs.C04Build2
 import TlxVerif.Proofs.C04Ins
 namespace TlxVerif.C04
+variable {af : Bool}
 
 /-- in a sorted list everything before the lower bound of `k` is below `k` -/
 theorem lowerBound_gt : ∀ (S : List Key), S.Pairwise (fun a b => a ≤ b) → ∀ (i : Nat) (k : Key),
@@ -89,7 +90,7 @@ theorem lcpPassGo_ok (c : Classifier) (useCalc : Bool) (p : Str) :
 /-- **Step lemma, total form**: the LCP pass succeeds and leaves the range sorted with exact LCPs -/
 theorem lcpPass_safe (c : Classifier) (useCalc : Bool) (p : Str) (rs : List Res)
     (hb : BucketsOk (splOf c useCalc) p 0 rs) :
-    Safe (lcpPass c useCalc (rs.map (·.out)).flatten (rs.map (·.lcp)).flatten p.length
+    Safe af (lcpPass c useCalc (rs.map (·.out)).flatten (rs.map (·.lcp)).flatten p.length
           (boundsOf (rs.map (·.out.length))))
       (fun l => lcpOk (rs.map (·.out)).flatten l ∧ (rs.map (·.out)).flatten.Pairwise (fun a b => strLe a b = true)) := by
   obtain ⟨w', hw⟩ := lcpPassGo_ok c useCalc p rs 0 [] { prev := none, lcp := (rs.map (·.lcp)).flatten } hb
